@@ -3,12 +3,12 @@
    and decoders (VcfReader._extract_GT_PS_phase / _extract_HP_phase, phased_blocks_as_reads) as modelled
    in coq/model/VcfRecord.v; the model is tied to the code by harness/props/C09.py (and C04.py).
 
-   The faithful model of the CURRENT code (orig_rules, orig_guard) refutes three clauses; each refutation
-   is a concrete file found by the correspondence check on the real tool and replayed here by
-   vm_compute.  The repaired rules (fix_rules: remove every phase statement of a target call before
-   writing, for either tag; assign the ascending genotype in the genotype-change branch; write '.' for
-   an unset HP / fix_guard: an HP tuple containing None or '.' is no phase) satisfy the clauses for all
-   inputs. *)
+   fix_rules / fix_guard model the code as it is (after the repairs b86843e, 3231061, 9ec9805 in /repo:
+   every phase statement of a target call is removed before writing, for either tag; the genotype-change
+   branch assigns the ascending genotype; an unset HP is written as '.'; an HP tuple that is empty or
+   contains None or '.' is no phase) and satisfy all clauses for all inputs.  orig_rules / orig_guard model
+   the code before those repairs; it refuted three clauses, and each refutation -- a concrete file found
+   by the correspondence check on the real tool -- is kept here, replayed by vm_compute. *)
 From Coq Require Import ZArith List Bool Arith.
 From WH.Model Require Import VcfRecord.
 From WH.Proofs Require Import VcfRecordProofs VcfRecordProofsC09.
@@ -54,7 +54,7 @@ Definition C09_ps_hp_equivalent_full_statement (ru : rules) (guard : list hpitem
     read_file guard false false outP = Ok tP -> read_file guard false false outH = Ok tH ->
     tables_equiv plan tP tH = true.
 
-(* current code: a fresh single-sample input with one het call written 1/0; --tag PS decodes to (0,1),
+(* code before the repairs: a fresh single-sample input with one het call written 1/0; --tag PS decodes to (0,1),
    --tag HP to (1,0) *)
 Definition w1_input : list vrec :=
   [mkRec 7 50 [1;2;3;4;5] [] 1 [1] false false [mkCall (Some [Some 1; Some 0]%nat) false None None None []]].
@@ -80,7 +80,7 @@ Example C09_ps_hp_witness_tables :
      Ok [(7, [mkRow 50 [[0; 1]%nat] [Some (mkPhase (Some 51) [Some 1; Some 0]%nat None)]])]).
 Proof. split; eexists; split; vm_compute; reflexivity. Qed.
 
-(* repaired writer and decoder: for every input the statements of every target call agree between
+(* the code as it is: for every input the statements of every target call agree between
    the two outputs -- the PS statement of the PS output equals the HP statement of the HP output, and
    neither output carries a statement in the other encoding *)
 Theorem C09_ps_hp_equivalent_fixed :
@@ -107,18 +107,18 @@ Definition C09_rephase_no_stale_phase_full_statement (ru : rules) : Prop :=
     wf_input input -> map fst plan = runs input -> phase_writer cf ru plan input = Ok out ->
     file_no_stale fix_guard cf plan input out = true.
 
-(* current code, re-tag PS -> HP: the old `0|1` and PS stay next to the new HP *)
+(* code before the repairs, re-tag PS -> HP: the old `0|1` and PS stay next to the new HP *)
 Definition w2_input : list vrec :=
   [mkRec 7 50 [1;2;3;4;5] [] 1 [1] false true [mkCall (Some [Some 1; Some 0]%nat) true (Some 9) None None []];
    mkRec 7 80 [1;2;3;4;5] [] 1 [1] false true [mkCall (Some [Some 0; Some 1]%nat) true (Some 9) None None []]].
 Definition w2_plan : list (token * list target) :=
   [(7, [mkTarget 0 [(50, [0; 1]%nat); (80, [0; 1]%nat)] [(50, 50); (80, 50)]])].
-(* current code, re-tag HP -> PS: the old HP stays (mixed phasing on read-back) *)
+(* code before the repairs, re-tag HP -> PS: the old HP stays (mixed phasing on read-back) *)
 Definition w3_input : list vrec :=
   [mkRec 7 50 [1;2;3;4;5] [] 1 [1] false false
      [mkCall (Some [Some 0; Some 1]%nat) false None None (Some [HPnum 9 2; HPnum 9 1]) []]].
 Definition w3_plan : list (token * list target) := [(7, [mkTarget 0 [(50, [0; 1]%nat)] [(50, 50)]])].
-(* current code, same tag HP: a record the new run does not phase keeps its old HP *)
+(* code before the repairs, same tag HP: a record the new run does not phase keeps its old HP *)
 Definition w4_plan : list (token * list target) := [(7, [mkTarget 0 [] []])].
 
 Example w_inputs_wf : wf_input w2_input /\ wf_input w3_input.
@@ -158,14 +158,45 @@ Proof. exact rephase_no_stale_fixed. Qed.
 Print Assumptions C09_rephase_no_stale_phase_fixed.
 
 (* --- decoding a written file returns what was written ------------------------------------------ *)
-(* Full statement, through the reader model (VariantTable rows of every chromosome run). *)
-Definition C09_decode_written_full_statement (ru : rules) (guard : list hpitem -> bool) : Prop :=
-  forall cf plan input out,
-    wf_input input -> map fst plan = runs input -> phase_writer cf ru plan input = Ok out ->
-    exists tabs, read_file guard (only_snvs cf) (mav cf) out = Ok tabs /\ file_decodes cf plan tabs = true.
+(* Through the reader model: every VariantTable (one per chromosome run) read back from the written
+   file gives, for every target sample at every row, exactly the phase that was written -- (component + 1,
+   super-read alleles) where the position has a component and a heterozygous allowed super-read column,
+   nothing elsewhere.  Side conditions: diploid bi-allelic run (mav off, two super-reads), pysam-shaped
+   calls, target samples exist, each chromosome forms one run (as in a sorted VCF), the reader is given
+   the writer's only_snvs / mav, and the reader accepts the file (it still rejects files whose OTHER samples
+   mix the encodings or whose positions are unsorted; that is outside the property). *)
+Definition C09_decode_written_statement (ru : rules) (guard : list hpitem -> bool) : Prop :=
+  forall cf plan input out tabs,
+    mav cf = false ->
+    Forall (fun e => NoDup (map t_sample (snd e))) plan ->
+    plan_diploid plan -> wf_input input -> targets_exist plan input ->
+    NoDup (map fst plan) -> map fst plan = runs input ->
+    phase_writer cf ru plan input = Ok out ->
+    read_file guard (only_snvs cf) (mav cf) out = Ok tabs ->
+    map fst tabs = map fst plan /\ file_decodes cf plan tabs = true.
 
-(* current code: three samples phased with --tag HP, two of them homozygous at the phased record:
-   their HP is assigned None, which reads back as (None,), and _extract_HP_phase dies on it *)
+Theorem C09_decode_written : C09_decode_written_statement fix_rules fix_guard.
+Proof. exact decode_written_file. Qed.
+Print Assumptions C09_decode_written.
+
+(* the code before the repairs: the 1/0 witness under --tag HP reads back fine but as the flipped phase *)
+Theorem C09_decode_written_refuted : ~ C09_decode_written_statement orig_rules orig_guard.
+Proof.
+  intros H.
+  assert (W : wf_input w1_input) by (repeat constructor; cbn; discriminate).
+  assert (D : plan_diploid w1_plan) by (repeat constructor).
+  assert (N : Forall (fun e => NoDup (map t_sample (snd e))) w1_plan) by (repeat constructor; cbn; intuition).
+  assert (T : targets_exist w1_plan w1_input).
+  { intros c ts r t [E|[]] [<-|[]] Ht. inversion E. subst. destruct Ht as [<-|[]]. cbn. auto. }
+  assert (P : NoDup (map fst w1_plan)) by (repeat constructor; cbn; intuition).
+  destruct (H (with_tag w_cf TagHP) w1_plan w1_input _ _ eq_refl N D W T P eq_refl eq_refl eq_refl) as [_ Hd].
+  vm_compute in Hd. discriminate.
+Qed.
+Print Assumptions C09_decode_written_refuted.
+
+(* the code before the repair b86843e: three samples phased with --tag HP, two of them homozygous at the
+   phased record; their HP was assigned None, read back as (None,), and _extract_HP_phase died on it;
+   the guard as it is now reads the same file and finds what was written *)
 Definition w5_input : list vrec :=
   [mkRec 7 50 [1;2;3;4;5] [] 1 [1] false false
      [mkCall (Some [Some 0; Some 1]%nat) false None None None [];
@@ -175,33 +206,19 @@ Definition w5_plan : list (token * list target) :=
   [(7, [mkTarget 0 [(50, [0; 1]%nat)] [(50, 50)]; mkTarget 1 [(50, [1; 1]%nat)] [(50, 50)];
         mkTarget 2 [(50, [0; 0]%nat)] [(50, 50)]])].
 
-Theorem C09_decode_written_refuted : ~ C09_decode_written_full_statement orig_rules orig_guard.
-Proof.
-  intros H.
-  assert (W : wf_input w5_input) by (repeat constructor; cbn; discriminate).
-  destruct (H (with_tag w_cf TagHP) w5_plan w5_input _ W eq_refl eq_refl) as [tabs [Hr _]].
-  vm_compute in Hr. discriminate.
-Qed.
-Print Assumptions C09_decode_written_refuted.
-
-Example C09_decode_written_witness :
+Theorem C09_reader_crash_original_code :
   exists o, phase_writer (with_tag w_cf TagHP) orig_rules w5_plan w5_input = Ok o /\
             read_file orig_guard false false o = Err EAttr /\
             exists tabs, read_file fix_guard false false o = Ok tabs /\
                          file_decodes (with_tag w_cf TagHP) w5_plan tabs = true.
 Proof. eexists. split; [vm_compute; reflexivity|]. split; [vm_compute; reflexivity|].
        eexists. split; vm_compute; reflexivity. Qed.
+Print Assumptions C09_reader_crash_original_code.
 
-(* Proved for the repaired writer and decoder, record by record along every write() call (with the
-   writer's own prev_pos bookkeeping): the statement of the chosen encoding of every target call is
-   exactly what was written -- (component + 1, super-read alleles) where the position has a component
-   and a heterozygous allowed super-read column and the record is not skipped, nothing otherwise --
-   and the other encoding makes no statement.
-   Not proved (hence _partial): the last step through the reader model, i.e. that VcfReader's row
-   selection (no ALT / multi-ALT / non-SNV / duplicate position) keeps exactly one such record per
-   position and that its file-wide mixed-encoding check passes; harness/props/C09.py evaluates exactly
-   that (`fixed_ok`) on every generated history. *)
-Theorem C09_decode_written_fixed_partial :
+(* The same record by record along every write() call (with the writer's own prev_pos bookkeeping, also for
+   records a reader skips): the statement of the chosen encoding of every target call is exactly what was
+   written, and the other encoding makes no statement. *)
+Theorem C09_decode_written_records :
   forall cf plan input out,
     mav cf = false ->
     Forall (fun e => NoDup (map t_sample (snd e))) plan ->
@@ -209,7 +226,7 @@ Theorem C09_decode_written_fixed_partial :
     map fst plan = runs input -> phase_writer cf fix_rules plan input = Ok out ->
     file_exact cf plan input out.
 Proof. exact decode_written_fixed. Qed.
-Print Assumptions C09_decode_written_fixed_partial.
+Print Assumptions C09_decode_written_records.
 
 (* --- blocks_as_reads_roundtrip ------------------------------------------------------------------ *)
 (* For sample column i and a phase set b with at least two contributing rows (diploid, in the variant
@@ -249,7 +266,7 @@ Example C09_blocks_example :
   /\ (2 <= length (members (contribs (fun _ => true) 0 ex_rows) (Some 11%Z)))%nat.
 Proof. split; vm_compute; [reflexivity|repeat constructor]. Qed.
 
-(* the repaired writer on the re-tag witnesses: hypotheses hold, outputs read back to what was written *)
+(* the code as it is on the re-tag witnesses: hypotheses hold, outputs read back to what was written *)
 Example C09_fixed_on_witnesses :
   plan_diploid w2_plan /\ Forall (fun e => NoDup (map t_sample (snd e))) w2_plan /\ wf_input w2_input /\
   (exists o, phase_writer (with_tag w_cf TagHP) fix_rules w2_plan w2_input = Ok o /\
